@@ -100,6 +100,15 @@ HISTORIES = {
                  [("cmd", 0, "preface"), ("cmd", 0, "headers", 1, h2_request_headers(b"GET", b"/a"), True),
                   ("cmd", 0, "headers", 3, h2_request_headers(b"GET", b"/b"), True)],
                  {"http:/a": GATED, "http:/b": RESPOND}, {}),
+    # the client resets its only stream (application still running / response already complete)
+    "h2_rst": ({"carrier": "h2", "tls": True, "alpn": "h2"},
+               [("cmd", 0, "preface"), ("cmd", 0, "headers", 1, h2_request_headers(b"GET", b"/a"), True),
+                ("cmd", 0, "rst", 1, 8)],
+               {"http": GATED}, {}),
+    "h2_rst_post": ({"carrier": "h2", "tls": True, "alpn": "h2"},
+                    [("cmd", 0, "preface"), ("cmd", 0, "headers", 1, h2_request_headers(b"POST", b"/a"), False),
+                     ("cmd", 0, "datan", 1, b"abc", False), ("cmd", 0, "rst", 1, 8)],
+                    {"http": RESPOND}, {}),
 }
 FAULTS = ["eof", "reset", "wfail", "terminate"]
 
@@ -153,9 +162,19 @@ def _responses(w: Any) -> List[dict]:
     cl = rec.client
     out = []
     if cl.h2 is not None:
+        # a stream the client reset itself is over at that instant, whatever the server had sent by then
+        client_rst = {e[3]: t for t, e in w.driver.fired if e[0] == "cmd" and e[2] == "rst"}
+        seen = set()
         for sid, st in sorted(cl.h2.streams.items()):
-            out.append({"complete": bool(st["ended"]) or st["reset"] is not None, "t_end": st["t_end"],
-                        "close": False, "status": st["status"]})
+            seen.add(sid)
+            done = bool(st["ended"]) or st["reset"] is not None
+            t_end = st["t_end"]
+            if not done and sid in client_rst:
+                done, t_end = True, client_rst[sid]
+            out.append({"complete": done, "t_end": t_end, "close": False, "status": st["status"]})
+        for sid, t in sorted(client_rst.items()):
+            if sid not in seen:
+                out.append({"complete": True, "t_end": t, "close": False, "status": None})
     elif cl.h1 is not None:
         for r in cl.h1.responses:
             if r["status"] == 101:
@@ -217,7 +236,15 @@ def oracle(w: Any, params: Any) -> List[dict]:
                     want = last + t_keep
                     if t_term is not None and t_term < want:
                         want = max(last, t_term)
-                    if tc > want + 1e-9:
+                    # an application still running for a stream its client has reset is not "a request in
+                    # progress" for the client, yet its late sends may re-arm the timer: lateness is judged from
+                    # the last such activity (demanding less than the statement might)
+                    orphan = [t for i in http_insts for (_, t1, _, _) in i.sends for t in [t1] if t is not None and t <= tc] \
+                        if any(e[0] == "cmd" and e[2] == "rst" for _, e in fired) else []
+                    late_from = max([last] + orphan) + t_keep
+                    if t_term is not None and t_term < late_from:
+                        late_from = max(last, t_term) if not orphan else max(max(orphan), t_term)
+                    if tc > max(want, late_from) + 1e-9:
                         out.append(V("idle-close-late", tag, f"closed at {tc}, idle since {last}, T={t_keep}, want {want}"))
                     elif tc < want - 1e-9:
                         out.append(V("idle-close-early", tag, f"closed at {tc}, idle since {last}, T={t_keep}, want {want}"))
